@@ -26,31 +26,51 @@
 (***************************************************************************)
 EXTENDS SplatFormat, Json, TLC
 
-CONSTANTS Versions, Counts, Degrees, FracBits, Patterns, Frames, CloudCounts, Profiles
+CONSTANTS Versions, Counts, Degrees, FracBits, Patterns, Frames, CloudCounts, Profiles,
+          EdgeCounts,      \* point counts of the boundary-value streams (pattern "edge")
+          FbLadder,        \* fractional-bit counts crossed with few other parameters (whole declared range 0..255)
+          Grans,           \* delivery granularities of the size ladder
+          LadderFrames,    \* gzip framings of the size-ladder streams
+          Deliveries       \* granularities in which the FILE is handed to the codec (0: at once; 100000 + g: pieces of g bytes, the last one together with io.EOF)
 
 VARIABLES g
 vars == <<g>>
 
-Byte(pat, j) ==
-    CASE pat = "perm" -> (37 * j + 11) % 256
-      [] pat = "perm2" -> (91 * j + 200) % 256
-      [] pat = "ff" -> 255
-      [] pat = "80" -> 128
-      [] pat = "00" -> 0
-      [] pat = "7f80" -> IF j % 2 = 0 THEN 127 ELSE 128
-
 FrameOf(fr) == CASE fr = "stored0" -> <<"stored", 0>> [] fr = "stored5" -> <<"stored", 5>> [] fr = "deflate" -> <<"deflate", 0>>
 
-SpzCase(v, n, deg, fb, pat, fr) ==
+\* la, lg: the array and the granularity a size-ladder stream was built for ("" / 0 otherwise);
+\* dl: delivery of the file; per: period of the decoded arrays in the point index the
+\* harness may use to log its observation compactly (0: log everything)
+SpzCaseX(v, n, deg, fb, pat, fr, dl, la, lg) ==
     LET hdr == <<v, n, deg, fb>> IN
-    [kind |-> "spz", hdr |-> hdr, pay |-> [j \in 1..PayloadLen(hdr) |-> Byte(pat, j - 1)],
-     frame |-> FrameOf(fr)[1], blk |-> FrameOf(fr)[2]]
+    [kind |-> "spz", hdr |-> hdr, pat |-> pat, per |-> PatPeriod(pat), pay |-> PatPayload(pat, hdr),
+     frame |-> FrameOf(fr)[1], blk |-> FrameOf(fr)[2], dl |-> dl, la |-> la, lg |-> lg]
+SpzCase(v, n, deg, fb, pat, fr) == SpzCaseX(v, n, deg, fb, pat, fr, 0, "", 0)
 
 \* version 1 ignores the fractional bits: one value is enough there
 MinFb == CHOOSE x \in FracBits : \A y \in FracBits : x <= y
+MidFb == 12
 SpzCases ==
     {SpzCase(t[1], t[2], t[3], t[4], t[5], t[6]) :
         t \in {u \in Versions \X Counts \X Degrees \X FracBits \X Patterns \X Frames : u[1] = 2 \/ u[4] = MinFb}}
+\* boundary values of every quantised field in every coordinate / channel, every version and degree
+EdgeCases ==
+    {SpzCase(t[1], t[2], t[3], t[4], "edge", "stored0") :
+        t \in {u \in Versions \X EdgeCounts \X Degrees \X FracBits : u[1] = 2 \/ u[4] = MinFb}}
+\* the fractional-bit count over its declared range (an 8 bit field)
+FbCases ==
+    {SpzCase(2, n, 0, fb, pat, "stored0") : n \in EdgeCounts \cup {1}, fb \in FbLadder, pat \in {"perm", "edge"}}
+\* size ladder: for every array of the layout and every granularity a stream in which a
+\* multiple of the granularity falls strictly inside that array
+LadderHdrs ==
+    {<<v, LadderCount(v, d, Arrays[a], gr), d, Arrays[a], gr>> :
+        v \in Versions, d \in Degrees, a \in 1..6, gr \in Grans}
+LadderCases ==
+    {SpzCaseX(t[1], t[2], t[3], MidFb, "p251", fr, 0, t[4], t[5]) :
+        t \in {u \in LadderHdrs : u[2] > 0 /\ ((u[4] = "sh") = (u[3] > 0))}, fr \in LadderFrames}
+\* delivery of the compressed file in pieces
+DeliveryCases ==
+    {SpzCaseX(v, 3, d, MidFb, "perm", fr, dl, "", 0) : v \in Versions, d \in Degrees, fr \in Frames, dl \in Deliveries \ {0}}
 
 \* edge-value tables, 1/1000 units
 Fdc == <<-3000, -1773, 0, 1772, 3000>>        \* colour = fdc * 0.2821 + 0.5: below 0, just below 0, 0.5, just below 1, above 1
@@ -70,15 +90,32 @@ Clouds ==
     \cup {<<Splat(x[1], x[2]), Splat(y[1], y[2])>> : x \in Pairs, y \in Pairs}
     \cup {<<Splat(x, x), Splat(y, z), Splat(z, x)>> : x \in Profiles, y \in Profiles, z \in Profiles}
 CloudCases ==
-    {[kind |-> "cloud", unit |-> 1000, splats |-> s, frest |-> (IF Len(s) = 2 THEN 45 ELSE IF Len(s) = 3 THEN 9 ELSE 0), normal |-> Len(s) = 1]
+    {[kind |-> "cloud", unit |-> 1000, splats |-> s, frest |-> (IF Len(s) = 2 THEN 45 ELSE IF Len(s) = 3 THEN 9 ELSE 0), normal |-> Len(s) = 1, dl |-> 0]
         : s \in {c \in Clouds : Len(c) \in CloudCounts}}
+    \cup  \* the same file through every delivery: a few clouds of every size
+    {[kind |-> "cloud", unit |-> 1000, splats |-> s, frest |-> (IF Len(s) = 2 THEN 45 ELSE 0), normal |-> Len(s) = 1, dl |-> dl]
+        : s \in {<<>>, <<Splat(2, 4)>>, <<Splat(1, 3), Splat(4, 2)>>, <<Splat(3, 3), Splat(2, 5), Splat(4, 1)>>}, dl \in Deliveries \ {0}}
 
-Init == g \in SpzCases \cup CloudCases
+Init == g \in SpzCases \cup EdgeCases \cup FbCases \cup LadderCases \cup DeliveryCases \cup CloudCases
 Spec == Init /\ [][UNCHANGED g]_vars
 
 Emit == PrintT(ToJson(g))
 
-Tiles == g.kind = "spz" => TilesPayload(g.hdr)
+\* the size ladder is effective: the stream built for (array, granularity) is cut there
+LadderLaw == (g.kind = "spz" /\ g.la # "") => Split(g.hdr, g.la, g.lg)
+\* the boundary-value streams really contain the whole ladder in every coordinate
+EdgeLaw == (g.kind = "spz" /\ g.pat = "edge" /\ g.hdr[2] >= 14 /\ g.hdr[2] % 3 = 0) =>
+    LET h == g.hdr
+        Word(i, c) == LET o == OffPos(h, i, c) IN
+                      IF h[1] = 1 THEN B(g.pay, o) + 256 * B(g.pay, o + 1)
+                      ELSE B(g.pay, o) + 256 * B(g.pay, o + 1) + 65536 * B(g.pay, o + 2)
+        lad == IF h[1] = 1 THEN HalfLadder ELSE LadderSeq(24)
+    IN /\ \A c \in 0..2 : {lad[k] : k \in 1..Len(lad)} \subseteq {Word(i, c) : i \in 0..(h[2] - 1)}
+       /\ \A c \in 0..2 : {LadderSeq(8)[k] : k \in 1..6} \subseteq {B(g.pay, OffColor(h, i, c)) : i \in 0..(h[2] - 1)}
+       /\ \A c \in 0..2 : {LadderSeq(8)[k] : k \in 1..6} \subseteq {B(g.pay, OffRot(h, i, c)) : i \in 0..(h[2] - 1)}
+
+\* (the slot set is quadratic to build: the law is linear in n, small counts decide it)
+Tiles == (g.kind = "spz" /\ g.hdr[2] <= 16) => TilesPayload(g.hdr)
 Ordered == g.kind = "spz" =>
     LET h == g.hdr IN
     /\ 0 <= BaseAlpha(h) /\ BaseAlpha(h) <= BaseColor(h) /\ BaseColor(h) <= BaseScale(h)
